@@ -719,3 +719,35 @@ def module_reach(prog, root_key, module_prefix):
     if r is None:
         return set()
     return {prog.insts[i].key for i in prog.reach([r]) if prog.insts[i].key.startswith(module_prefix)}
+
+
+def assume_enum_value(subject_canon, value, variant_name):
+    """The enum-typed subject has the given variant: decides `match subject` (discriminant switches) and
+    `subject == Enum::V` / `!=` comparisons (derived PartialEq against a constant variant)."""
+    d = assume_discr(subject_canon, value)
+
+    def a(body, b, t, e):
+        r = d(body, b, t, e)
+        if r is not None:
+            return r
+        pol = True
+        while e[0] == "unop" and e[1] == "Not":
+            e = e[2]
+            pol = not pol
+        if e[0] == "call" and (e[1].endswith("PartialEq::eq") or e[1].endswith("PartialEq::ne")) and len(e[2]) == 2:
+            x, y = strip(e[2][0]), strip(e[2][1])
+            if canon(x) != subject_canon:
+                x, y = y, x
+            if canon(x) == subject_canon:
+                cv = None
+                if y[0] == "agg" and not y[3]:
+                    cv = y[2]
+                elif y[0] == "const" and "variant" in y[1]:
+                    cv = y[1]["variant"]
+                if cv is not None:
+                    truth = (cv == variant_name)
+                    if e[1].endswith("::ne"):
+                        truth = not truth
+                    return switch_targets_for(t, truth if pol else (not truth))
+        return None
+    return a
